@@ -193,7 +193,7 @@ pub fn run(ctx: &mut Ctx) {
     ctx.rule = "a type graph (1..6 structs, names chosen to stress ordering and the type grammar, 0..6 members, member types atomic | struct reference | array up to 3 dimensions fixed 0..3 or dynamic; cycles only through dynamic/empty arrays; shared, repeated, diamond, self- and mutually-recursive references) and a conforming value tree generated together from a byte tape; integers at range boundaries in every accepted spelling; one of the 31 well-formed domains; any struct (occasionally EIP712Domain) as primaryType; JSON keys shuffled. Oracle: EIP-712 reference computed from the AST (dependency set = reachable minus primary, name order, once each); domain separator, message hash and signing digest must match; with the hook, encodeType of every struct must equal the reference string and the parse/print image of {100 atoms} x {suffix lists up to length 3 over [],[0],[1],[2],[10]} must be the identity (15600 strings, exhaustive). Non-trivial: primary type reaches another struct or contains an array; distinct by document.".into();
     ctx.assumptions = vec!["sha3 Keccak".into(), "struct and member names are ASCII identifiers (sort orders agree)".into()];
     ctx.replay_known_and_regressions(&replay);
-    let n = ctx.tier.pick(6000, 300_000);
+    let n = ctx.tier.pick(60_000, 1_000_000);
     ctx.run_prop("digest", n, || crate::gen::tape(1500).prop_map(gen_case), judge);
 
     let suffixes = ["[]", "[0]", "[1]", "[2]", "[10]"];
